@@ -105,7 +105,7 @@ Print Assumptions C12_whole_run_is_classes_of_each_positional_group.
 
 (* ---------------- non-vacuity ---------------- *)
 Definition al (i s e : Z) (r : N) (alts : list N) : orec :=
-  {| rid := i; rtruthy := true; rtumor := []; rnormal := []; rchr := [99%N]; rstart := s; rend := e;
+  {| rid := i; rtruthy := true; rtumor := Some []; rnormal := Some []; rchr := [99%N]; rstart := s; rend := e;
      oref := [r]; oalts := map (fun a => [a]) alts |}.
 Definition demo_cfg : cfg := {| by_barcodes := false; contigs := [] |}.
 (* first input: A>C, A>G, A>C,G, C>C at one locus; second input: A>G,C  A>()  A>C (pos 6)  and a far record *)
